@@ -359,6 +359,19 @@ void copyFamily(Ctx& ctx, const std::string& dir)
 			if (o.cls != 'R') { ctx.violation(std::string("C14/copy/throws/") + bnames[b], key, o.what); continue; }
 			if (got.size() != expectN || std::memcmp(got.data(), src.data() + start, expectN) != 0)
 				ctx.violation(std::string("C14/copy/content/") + bnames[b] + "/" + dnames[d], key, "copied " + std::to_string(got.size()) + " bytes, expected " + std::to_string(expectN) + "; head " + mc::hex(got.data(), got.size(), 24));
+			// the reader stays usable after a copy ran it to its end: position = length, and seeking back to the start
+			// position and copying again transfers the same bytes (a reader left in a failed state would deliver nothing)
+			{
+				uint64_t posAfter = ~0ull;
+				auto q = mc::guarded([&] { posAfter = r->Position(); });
+				if (q.cls != 'R' || posAfter != len) { ctx.violation(std::string("C14/copy/reader-position-after-copy/") + bnames[b], key, "Position() " + std::to_string(posAfter) + " expected " + std::to_string(len)); continue; }
+				Stream::DynamicMemoryWriter w2;
+				auto o2 = mc::guarded([&] { r->Seek(start); w2.template Write<C>(*r); });
+				auto rd2 = w2.GetReader(); std::vector<uint8_t> again(std::size_t(rd2.Length())); if (!again.empty()) rd2.Read(again.data(), again.size());
+				ctx.transition(); ctx.count("copy/second-copy-from-the-same-reader");
+				if (o2.cls != 'R') { ctx.violation(std::string("C14/copy/second-copy-throws/") + bnames[b], key, o2.what); continue; }
+				if (again.size() != expectN || std::memcmp(again.data(), src.data() + start, expectN) != 0) { ctx.violation(std::string("C14/copy/second-copy-content/") + bnames[b], key, "copied " + std::to_string(again.size()) + " bytes, expected " + std::to_string(expectN)); continue; }
+			}
 			ctx.outcome(mc::fnv(key.substr(0, key.find(" len"))) ^ (expectN % C) ^ ((expectN / C) << 8));
 			ctx.trace();
 		}
@@ -425,6 +438,8 @@ void fileWriterMatrix(Ctx& ctx)
 				if (!nowExists) site = "file-missing-after-open";
 			}
 		}
+		// without CanOpenNew nothing new may appear, not even the directory of the requested file
+		if (site.empty() && !canNew && !dirEx) { ctx.count("filewriter/missing-directory-without-permission-to-create"); if (exists(dir)) site = "directory-created-without-permission-to-create"; }
 		ctx.outcome(mc::fnv(key) ^ uint64_t(o.cls));
 		if (!site.empty()) ctx.violation("C14/FileWriter/" + site, key, "outcome " + std::string(1, o.cls) + " " + o.what + "; file now " + (nowExists ? mc::hex(now.data(), now.size()) : std::string("absent")));
 		ctx.trace();
